@@ -20,10 +20,12 @@ from common import coq_string, coq_list, coq_nat
 
 def analyse(prog):
     mod, objs = G.build(prog)
+    declared_before = {s.ID: set(s.EquationBlock.GetEquationList()) for s in mod.GetSectors()}
     text = G.generate_equations(mod)
     system, parser = G.system_of(text)
     names = [v for v, _ in system]
-    return {'mod': mod, 'objs': objs, 'text': text, 'system': system, 'parser': parser, 'names': names}
+    return {'mod': mod, 'objs': objs, 'text': text, 'system': system, 'parser': parser, 'names': names,
+            'declared_before': declared_before}
 
 
 def hints(a):
